@@ -6,6 +6,21 @@ HERE = os.path.dirname(os.path.dirname(os.path.abspath(__file__)))
 PROPS = [json.loads(l)['id'] for l in open(os.path.join(HERE, 'properties.jsonl'))]
 
 CHECKS = {
+ 'C12': dict(category='proof', design_ref='DESIGN.md section 4 (C12)',
+    text='The guards that dominate every open()/os.path.isfile() of #include and require() are read from the real source (all '
+         'control paths, with assignment and branch events) on every run. #include: on each of the paths to a file access in '
+         'process_includes the translated path conditions are proved by z3 (string theory) to imply, for ALL strings, that the '
+         'path is the include root or below it; get_root_include_path is proved to return a normalised absolute path. '
+         'require(): _evaluate_require is shown to open only what _locate_require_file returns, after the filter; '
+         '_locate_require_file to probe only pattern.replace("?", p) for the patterns of the load path; and the filter, '
+         'translated into regular conditions, is proved by exhaustive automaton exploration to guarantee for ALL strings A, p, B '
+         'that every ".." path component of A + p + B lies inside A or inside B, i.e. a candidate can leave a load-path '
+         'directory only where the pattern itself says so.',
+    note='POSIX paths. Assumed (sampled against the real os.path every run): abspath(normpath(x)) is normalised and absolute, '
+         'dirname keeps that and contains the path, commonpath([a,b]) == a iff b is a or below a. The two SHAPE obligations are '
+         'syntactic (dataflow along enumerated paths). A bounded native run with canary files outside every root and every '
+         'open/isfile recorded supplies concrete failing inputs (replay).',
+    technique='contract-based deductive verification of path guards extracted from the real control paths: z3 string theory (#include) + regular-language decision procedure (require filter)'),
  'C11': dict(category='proof', design_ref='DESIGN.md section 4 (C11)',
     text='file.to_file is under an effect-order contract discharged on every control path of the real function, enumerated from '
          'its ast with EVERY call allowed to raise (which covers a fault at the k-th write for all k without enumerating k): any '
